@@ -924,7 +924,17 @@ class Evaluator:
                 self.bind_target(g.target, bound, inner)
                 conds = tuple(self.truthy(self.expr(c, inner)) for c in g.ifs)
                 gens.append((it, conds))
-            return ("dictcomp", self.expr(e.key, inner), self.expr(e.value, inner), tuple(gens))
+            key_t, val_t = self.expr(e.key, inner), self.expr(e.value, inner)
+            if len(gens) == 1 and not gens[0][1] and gens[0][0][0] in ("tuple", "list") and len(gens[0][0][1]) <= 24 \
+                    and not any(x[0] == "star" for x in gens[0][0][1]) and isinstance(e.generators[0].target, ast.Name):
+                # a dict comprehension over a display of known length is the display of its entries (names re-evaluated per item: getattr(x, name))
+                items = []
+                for item in gens[0][0][1]:
+                    fr_i = Frame(fr.fn, fr.module, dict(fr.env), fr.self_cls, fr.depth)
+                    fr_i.env[e.generators[0].target.id] = item
+                    items.append((self.expr(e.key, fr_i), self.expr(e.value, fr_i)))
+                return ("dict", tuple(items))
+            return ("dictcomp", key_t, val_t, tuple(gens))
         if isinstance(e, ast.Starred):
             return ("star", self.expr(e.value, fr))
         if isinstance(e, ast.Slice):
@@ -1123,7 +1133,13 @@ class Evaluator:
         kwargs = []
         for kw in e.keywords:
             if kw.arg is None:
-                kwargs.append(("**", self.expr(kw.value, fr)))
+                v = self.expr(kw.value, fr)
+                known = expand_dict(v)
+                if known is not None and all(k[0] == "const" and isinstance(k[1], str) for k, _ in known):
+                    # ``f(**{'a': x, 'b': y})`` is ``f(a=x, b=y)``
+                    kwargs.extend((k[1], val) for k, val in known)
+                else:
+                    kwargs.append(("**", v))
             else:
                 kwargs.append((kw.arg, self.expr(kw.value, fr)))
         if isinstance(e.func, ast.Name) and fr.env.get(e.func.id, ("?",))[0] == "lambda" and fr.env[e.func.id][1] in self.lambdas \
@@ -1142,6 +1158,9 @@ class Evaluator:
             if len(cands) == 1:
                 return self.call_function(cands[0], None, None, args, kwargs, fr)
         fname = dotted(e.func)
+        fun = self._functional(fname, e, args, kwargs, fr)
+        if fun is not None:
+            return fun
         # builtins ----------------------------------------------------------------------
         if isinstance(e.func, ast.Name) and e.func.id not in fr.env:
             n = e.func.id
@@ -1152,6 +1171,10 @@ class Evaluator:
                     if names:
                         return t_or(*[("isinstance", args[0], nm) for nm in names])
                     return ("isinstance", args[0], show(args[1]))
+                if n == "dict" and not args and kwargs and all(k != "**" for k, _ in kwargs):
+                    return ("dict", tuple((("const", k), v) for k, v in kwargs))
+                if n == "getattr" and len(args) in (2, 3) and not kwargs and args[1][0] == "const" and isinstance(args[1][1], str) and len(args) == 2:
+                    return self.attr(args[0], args[1][1], fr)
                 if n in ("max", "min") and not kwargs and len(args) >= 2:
                     nums = [number(a) for a in args]
                     if all(x is not None for x in nums):
@@ -1243,6 +1266,77 @@ class Evaluator:
                     return self.construct(c, args, kwargs, fr)
         f = self.expr(e.func, fr)
         return ("call", f, tuple(args), tuple(kwargs))
+
+    # -- functional builtins as comprehensions ------------------------------------------------------------
+    def apply_callable(self, f: Term, arg: Term, fr: Frame) -> Optional[Term]:
+        """f(arg) for the callables that occur as ``key=`` / ``map`` / ``filter`` arguments: a lambda with its closure, ``attrgetter('a')``, a class
+        (construction), a package function, a bound method."""
+        if f[0] == "lambda" and f[1] in self.lambdas:
+            node, cenv, cfr = self.lambdas[f[1]]
+            la = node.args
+            names = [a.arg for a in la.posonlyargs + la.args]
+            if len(names) == 1 and not la.vararg and not la.kwarg:
+                env2 = dict(cenv)
+                env2[names[0]] = arg
+                return self.expr(node.body, Frame(cfr.fn, cfr.module, env2, cfr.self_cls, fr.depth + 1))
+            return None
+        if f[0] == "call" and (f[1] == "attrgetter" or f[1] == ("global", "attrgetter") or (isinstance(f[1], tuple) and f[1][-1:] == ("attrgetter",))) \
+                and len(f[2]) == 1 and f[2][0][0] == "const" and isinstance(f[2][0][1], str) and "." not in f[2][0][1]:
+            return self.attr(arg, f[2][0][1], fr)
+        if f[0] == "cls":
+            c = self.model.maybe_cls(f[1])
+            if c is not None:
+                return self.construct(c, [arg], [], fr)
+        if f[0] == "fn":
+            cands = [x for x in self.model.all_functions() if x.qualname == f[1]]
+            if len(cands) == 1 and cands[0].kind in ("function", "staticmethod"):
+                return self.call_function(cands[0], None, None, [arg], [], fr)
+            if len(cands) == 1 and cands[0].kind == "method":
+                return self.call_function(cands[0], arg, self.type_of(arg) or cands[0].cls, [], [], fr)
+        if f[0] == "attr":
+            bc = self.type_of(f[1])
+            if bc is not None:
+                fs = bc.resolve_all(f[2])
+                if len(fs) == 1 and fs[0].kind in ("method", "staticmethod", "classmethod"):
+                    return self.call_function(fs[0], f[1], bc, [arg], [], fr)
+            return ("call", f, (arg,), ())
+        return None
+
+    def _functional(self, fname: Optional[str], e: ast.Call, args: List[Term], kwargs, fr: Frame) -> Optional[Term]:
+        if not fname or kwargs or any(a[0] == "star" for a in args):
+            return None
+        if isinstance(e.func, ast.Name) and e.func.id in fr.env:
+            return None
+        short = fname.split(".")[-1]
+        tail2 = ".".join(fname.split(".")[-2:])
+        if isinstance(e.func, ast.Name) and self.model.lookup_symbol(fr.module, e.func.id) is not None:
+            return None     # a package symbol of that name
+        if short in ("map", "filter", "filterfalse") and len(args) == 2:
+            dom = args[1]
+            b = ("bound", fr.depth, 0, show(dom))
+            ec = self.elem_type(dom)
+            if ec is not None:
+                self.set_type(b, ec)
+            img = self.apply_callable(args[0], b, fr)
+            if img is None:
+                return None
+            if short == "map":
+                return ("comp", "gen", img, ((dom, ()),))
+            return ("comp", "gen", b, ((dom, (self.truthy(img) if short == "filter" else t_not(self.truthy(img)),)),))
+        if tail2 == "chain.from_iterable" and len(args) == 1:
+            src = args[0]
+            while src[0] == "var" and len(src) == 4:
+                src = src[3]
+            if src[0] == "comp" and len(src[3]) == 1:
+                inner_dom = src[2]
+                b = ("bound", fr.depth, 1, show(inner_dom))
+                return ("comp", "gen", b, (src[3][0], (inner_dom, ())))
+            return None
+        if short == "chain" and fname.split(".")[-1] == "chain" and len(args) >= 1 and tail2 != "chain.from_iterable":
+            return ("concat", tuple(args))
+        if short in ("list", "tuple") and len(args) == 1 and args[0][0] == "comp" and args[0][1] == "gen":
+            return ("comp", "list") + args[0][2:]
+        return None
 
     def bind_args(self, f: FunctionInfo, args: List[Term], kwargs: List[Tuple[str, Term]], skip_self: bool) -> Optional[Dict[str, Term]]:
         a = f.node.args
